@@ -220,8 +220,15 @@ def _unique_name(params: Any) -> str:
     # Boolean indication of whether *all* param-datatypes are from among these
     all_scalar = all([param.dtype in scalars for param in params.__params__.values()])
 
-    # If all params are scalars, create a readable string of their values
-    if all_scalar:
+    # String values which could be mistaken for the surrounding format, or for another value, are not readable:
+    # those including the separators " " or "=", and the string "None".
+    vals = [getattr(params, k) for k in params.__params__.keys()]
+    ambiguous = any(
+        [isinstance(v, str) and (v == "None" or "=" in v or " " in v) for v in vals]
+    )
+
+    # If all params are (unambiguous) scalars, create a readable string of their values
+    if all_scalar and not ambiguous:
         # Format: `pname1=pval1 pname2=pval2 pname3=pval3`
         keys = params.__params__.keys()
         name = " ".join(f"{k}={str(getattr(params, k))}" for k in keys)
